@@ -3,11 +3,14 @@ package e1front
 import (
 	"bytes"
 	"context"
-	"errors"
 	"fmt"
+	"io"
 	"slices"
+	"strings"
 	"testing"
 	"testing/cryptotest"
+	"testing/synctest"
+	"time"
 
 	"github.com/c2FmZQ/ech"
 
@@ -32,6 +35,9 @@ type HStep struct {
 type HistoryPlan struct {
 	Base  ScriptPlan `json:"base"`
 	Steps []HStep    `json:"steps"`
+	// Concurrent: run over a simulated link with the proxy's read pump parked
+	// inside Conn.Read while backend records pass through Conn.Write.
+	Concurrent bool `json:"concurrent,omitempty"`
 }
 
 // histClient builds the client's records, holding the sender HPKE context.
@@ -190,6 +196,147 @@ var hello2Alerts = map[string][]int{
 	"hello2-nover":     {alIllegalParameter, alDecryptError, alMissingExtension},
 }
 
+// histIO is how the history's records reach the Conn: sequentially over a
+// scripted transport on one goroutine, or concurrently over a simulated link
+// with a reader goroutine parked inside Conn.Read (as in a real proxy, where
+// the HelloRetryRequest passes through Write while Read is already blocked).
+type histIO struct {
+	start  func() (first []byte, accepted bool, err error)
+	feed   func(rec []byte) (got []byte, err error)
+	write  func(rec []byte) (n int, err error)
+	out    func() []byte // every byte the client-side transport has received
+	closes func() int
+	pk     *string // set to "site: message" when a call into the library panicked
+}
+
+func seqIO(b *built) *histIO {
+	sc := simnet.NewScript(b.outerRec)
+	sc.NoEOF = true
+	var conn *ech.Conn
+	buf := make([]byte, 70000)
+	pk := new(string)
+	guard := func(f func()) {
+		if p, m, s := core.Guard(f); p {
+			*pk = s + ": " + normMsg(m)
+		}
+	}
+	return &histIO{pk: pk,
+		start: func() (first []byte, accepted bool, err error) {
+			guard(func() { conn, err = ech.NewConn(context.Background(), sc, ech.WithKeys(b.keys)) })
+			if *pk != "" || err != nil {
+				return nil, false, err
+			}
+			accepted = conn.ECHAccepted()
+			guard(func() {
+				var n int
+				n, err = conn.Read(buf)
+				first = append([]byte(nil), buf[:n]...)
+			})
+			return
+		},
+		feed: func(rec []byte) (got []byte, err error) {
+			sc.Feed(rec)
+			guard(func() {
+				var n int
+				n, err = conn.Read(buf)
+				got = append([]byte(nil), buf[:n]...)
+			})
+			return
+		},
+		write:  func(rec []byte) (n int, err error) { guard(func() { n, err = conn.Write(rec) }); return },
+		out:    func() []byte { return sc.Out },
+		closes: func() int { return sc.Closes },
+	}
+}
+
+type readResult struct {
+	b   []byte
+	err error
+	pk  string
+}
+
+// concIO must be used inside a synctest bubble.
+func concIO(w *simnet.World, b *built) *histIO {
+	lat := simnet.LinkCfg{Seg: simnet.SegWhole, LatMinUs: 20, LatMaxUs: 200}
+	cc, fc := w.Pipe("c", "f", lat, lat)
+	var conn *ech.Conn
+	reads := make(chan readResult, 256)
+	pk := new(string)
+	var got []byte // what the client has received
+	drain := func() {
+		// collect whatever has arrived at the client within a second of virtual time
+		cc.SetReadDeadline(time.Now().Add(time.Second))
+		buf := make([]byte, 70000)
+		for {
+			n, err := cc.Read(buf)
+			got = append(got, buf[:n]...)
+			if err != nil {
+				break
+			}
+		}
+		cc.SetReadDeadline(time.Time{})
+	}
+	return &histIO{pk: pk,
+		start: func() (first []byte, accepted bool, err error) {
+			cc.Write(b.outerRec)
+			if p, m, s := core.Guard(func() { conn, err = ech.NewConn(context.Background(), fc, ech.WithKeys(b.keys)) }); p {
+				*pk = s + ": " + normMsg(m)
+			}
+			if *pk != "" || err != nil {
+				return nil, false, err
+			}
+			accepted = conn.ECHAccepted()
+			go func() { // the proxy's client->backend pump: always parked in Conn.Read
+				buf := make([]byte, 70000)
+				for {
+					var n int
+					var rerr error
+					p, m, s := core.Guard(func() { n, rerr = conn.Read(buf) })
+					r := readResult{b: append([]byte(nil), buf[:n]...), err: rerr}
+					if p {
+						r.pk = s + ": " + normMsg(m)
+					}
+					reads <- r
+					if p || rerr != nil {
+						return
+					}
+				}
+			}()
+			r := <-reads
+			if r.pk != "" {
+				*pk = r.pk
+			}
+			return r.b, accepted, r.err
+		},
+		feed: func(rec []byte) ([]byte, error) {
+			cc.Write(rec)
+			r := <-reads
+			if r.pk != "" {
+				*pk = r.pk
+			}
+			if r.err != nil {
+				drain()
+			}
+			return r.b, r.err
+		},
+		write: func(rec []byte) (n int, err error) {
+			if p, m, s := core.Guard(func() { n, err = conn.Write(rec) }); p {
+				*pk = s + ": " + normMsg(m)
+			}
+			if err == nil {
+				buf := make([]byte, len(rec))
+				cc.SetReadDeadline(time.Now().Add(time.Second))
+				k, _ := io.ReadFull(cc, buf)
+				cc.SetReadDeadline(time.Time{})
+				got = append(got, buf[:k]...)
+			}
+			return
+		},
+		out:    func() []byte { return got },
+		closes: func() int { return fc.Closes },
+	}
+}
+
 func executeHistory(t *testing.T, prop string, seed uint64, p *HistoryPlan) *core.Result {
 	res := &core.Result{}
 	cryptotest.SetGlobalRandom(t, seed)
@@ -202,36 +349,53 @@ func executeHistory(t *testing.T, prop string, seed uint64, p *HistoryPlan) *cor
 		res.Harness = "buildScript: " + err.Error()
 		return res
 	}
-	var log []string
-	sc := simnet.NewScript(b.outerRec)
-	sc.NoEOF = true
-	var conn *ech.Conn
-	buf := make([]byte, 70000)
-	fail := func(class, site, f string, a ...any) { res.Fail(prop, class, site, f, a...) }
-	panicked, msg, site := core.Guard(func() {
-		conn, err = ech.NewConn(context.Background(), sc, ech.WithKeys(b.keys))
+	if !p.Concurrent {
+		runHistory(prop, seed, p, b, seqIO(b), res)
+		return res
+	}
+	res.Probe("concurrent_history")
+	msg := core.Bubble(t, func(t *testing.T) {
+		w := simnet.NewWorld(seed)
+		runHistory(prop, seed, p, b, concIO(w, b), res)
+		res.SimNs = w.Now()
+		for _, c := range w.Conns() {
+			c.Close()
+		}
+		w.Shutdown()
+		synctest.Wait()
+		lib, other := core.Leaked()
+		if len(lib) > 0 && len(res.Violations) == 0 {
+			res.Fail(prop, "goroutine-leak", strings.Join(lib, ","), "after the history ended and both transports were closed")
+		}
+		if len(other) > 0 && len(res.Violations) == 0 {
+			res.Harness = "goroutines left: " + strings.Join(other, ",")
+		}
 	})
-	if panicked {
-		fail("panic", site+": "+normMsg(msg), "NewConn")
-		return res
+	if msg != "" && res.Harness == "" && len(res.Violations) == 0 {
+		res.Harness = "bubble: " + firstLine(msg)
 	}
-	if err != nil || !conn.ECHAccepted() {
+	return res
+}
+
+func runHistory(prop string, seed uint64, p *HistoryPlan, b *built, io_ *histIO, res *core.Result) {
+	var log []string
+	fail := func(class, site, f string, a ...any) { res.Fail(prop, class, site, f, a...) }
+	first, accepted, err := io_.start()
+	if *io_.pk != "" {
+		fail("panic", *io_.pk, "NewConn / first Read")
+		return
+	}
+	if err != nil || !accepted {
 		fail("rejected-valid", "first hello of the history not accepted", "err=%v", err)
-		return res
-	}
-	var n int
-	var rerr error
-	if pk, m, s := core.Guard(func() { n, rerr = conn.Read(buf) }); pk {
-		fail("panic", s+": "+normMsg(m), "first Read")
-		return res
+		return
 	}
 	want := append([]byte(nil), b.wantInner...)
-	if n >= 3 {
-		want[1], want[2] = buf[1], buf[2]
+	if len(first) >= 3 {
+		want[1], want[2] = first[1], first[2]
 	}
-	if rerr != nil || !bytes.Equal(buf[:n], want) {
-		fail("reconstruction", "first hello not forwarded as the reference inner", "err=%v", rerr)
-		return res
+	if !bytes.Equal(first, want) {
+		fail("reconstruction", "first hello not forwarded as the reference inner", "got %d bytes want %d", len(first), len(want))
+		return
 	}
 
 	// the model (DESIGN Appendix A.1), written from the property statement
@@ -254,21 +418,20 @@ func executeHistory(t *testing.T, prop string, seed uint64, p *HistoryPlan) *cor
 			default:
 				rec = plainRecord(seed, st.Kind, i)
 			}
-			var wn int
-			var werr error
-			if pk, m, s := core.Guard(func() { wn, werr = conn.Write(rec) }); pk {
-				fail("panic", s+": "+normMsg(m), "step %d: Write %s", i, st.Kind)
+			wn, werr := io_.write(rec)
+			if *io_.pk != "" {
+				fail("panic", *io_.pk, "step %d: Write %s", i, st.Kind)
 				break
 			}
 			if werr != nil || wn != len(rec) {
 				fail("history", "Conn.Write of a backend "+st.Kind+" record failed", "step %d: n=%d err=%v", i, wn, werr)
 				break
 			}
-			if got := sc.Out[outLen:]; !bytes.Equal(got, rec) {
+			if got := io_.out()[outLen:]; !bytes.Equal(got, rec) {
 				fail("history", "backend "+st.Kind+" record not forwarded unchanged", "step %d: %d bytes written, record has %d", i, len(got), len(rec))
 				break
 			}
-			outLen = len(sc.Out)
+			outLen = len(io_.out())
 			if wInspect {
 				switch st.Kind {
 				case "appdata":
@@ -295,9 +458,10 @@ func executeHistory(t *testing.T, prop string, seed uint64, p *HistoryPlan) *cor
 			var real bool
 			var seq int
 			var wi []byte
-			rec, real, seq, wi, err = hc.hello2(st.Kind, st.A, useReal)
-			if err != nil {
-				res.Harness = "hello2: " + err.Error()
+			var herr error
+			rec, real, seq, wi, herr = hc.hello2(st.Kind, st.A, useReal)
+			if herr != nil {
+				res.Harness = "hello2: " + herr.Error()
 				break
 			}
 			wantFwd = rec
@@ -323,21 +487,19 @@ func executeHistory(t *testing.T, prop string, seed uint64, p *HistoryPlan) *cor
 				rInspect = false
 			}
 		}
-		sc.Feed(rec)
-		var rn int
-		var rerr error
-		if pk, m, s := core.Guard(func() { rn, rerr = conn.Read(buf) }); pk {
-			fail("panic", s+": "+normMsg(m), "step %d: Read %s", i, st.Kind)
+		got, rerr := io_.feed(rec)
+		if *io_.pk != "" {
+			fail("panic", *io_.pk, "step %d: Read %s", i, st.Kind)
 			break
 		}
-		if isHello && processed && hrrCount >= 2 && rerr == nil && bytes.Equal(buf[:rn], rec) {
+		if isHello && processed && hrrCount >= 2 && rerr == nil && bytes.Equal(got, rec) {
 			// two HelloRetryRequests: the statement does not say whether the
 			// hello is still a retry; leaving it untouched is accepted too
 			res.Probe("double_hrr_lenient")
 			continue
 		}
 		if expectAbort != nil {
-			checkAbort(res, prop, "retried hello ("+st.Kind+")", rerr, sc.Out[outLen:], sc.Closes, buf[:rn], expectAbort)
+			checkAbort(res, prop, "retried hello ("+st.Kind+")", rerr, io_.out()[outLen:], io_.closes(), got, expectAbort)
 			log = append(log, fmt.Sprintf("c %s abort %v", st.Kind, rerr))
 			break
 		}
@@ -351,7 +513,6 @@ func executeHistory(t *testing.T, prop string, seed uint64, p *HistoryPlan) *cor
 			fail("history", what+" ("+st.Kind+") not forwarded: "+normErr(rerr), "step %d: processed=%v armed=%v", i, processed, armed)
 			break
 		}
-		got := append([]byte(nil), buf[:rn]...)
 		w2 := append([]byte(nil), wantFwd...)
 		if processed && len(got) >= 3 {
 			w2[1], w2[2] = got[1], got[2]
@@ -366,19 +527,17 @@ func executeHistory(t *testing.T, prop string, seed uint64, p *HistoryPlan) *cor
 			fail("history", what+" ("+st.Kind+")", "step %d: got %d bytes want %d, first diff %d", i, len(got), len(w2), firstDiff(got, w2))
 			break
 		}
-		if len(sc.Out) != outLen {
+		if len(io_.out()) != outLen {
 			fail("history", "bytes written to the client while reading a "+st.Kind+" record", "step %d", i)
 			break
 		}
 		log = append(log, fmt.Sprintf("c %s ok processed=%v", st.Kind, processed))
 	}
 	res.NonTrivial = res.Harness == ""
-	res.Sig = core.SigOf(append([]string{"history"}, sigParts...)...)
+	res.Sig = core.SigOf(append([]string{"history", fmt.Sprint(p.Concurrent)}, sigParts...)...)
 	res.LogHash = core.HashLog(log)
 	res.FaultN("history_steps", len(p.Steps))
-	res.Sample = map[string]any{"kind": "history", "steps": p.Steps}
-	_ = errors.Is
-	return res
+	res.Sample = map[string]any{"kind": "history", "concurrent": p.Concurrent, "steps": p.Steps}
 }
 
 var cKinds = []string{"hello2-ok", "hello2-ok", "hello2-ok", "hello2-noech", "hello2-id", "hello2-suite", "hello2-enc", "hello2-fresh", "hello2-seq", "hello2-sni", "hello2-alpn", "hello2-innertype", "hello2-nover", "ccs", "ccs", "hs-other", "alert", "appdata"}
@@ -389,7 +548,7 @@ func genC06(seed uint64, idx int) *Plan {
 	base := genScriptBase(r)
 	base.Chunks, base.ReadBuf, base.Trailer = nil, 0, nil
 	base.ExtraIn = max(base.ExtraIn, 2)
-	h := &HistoryPlan{Base: *base}
+	h := &HistoryPlan{Base: *base, Concurrent: r.IntN(3) == 0}
 	n := 1 + r.IntN(12)
 	// bias: most histories contain the HRR / second hello pair somewhere
 	for i := 0; i < n; i++ {
